@@ -375,6 +375,41 @@ def canonical_branches(tree: ast.AST) -> ast.AST:
             keep.append(st)
         if m:
             fn.body = [_Inline(m).visit(st) for st in keep] or [ast.Pass()]
+    # (d) `n = <call>` immediately followed by `for t in n:` with n used nowhere else is `for t in <call>:`
+    for fn in [x for x in ast.walk(tree) if isinstance(x, (ast.FunctionDef, ast.AsyncFunctionDef))]:
+        loads: Dict[str, int] = {}
+        stores: Dict[str, int] = {}
+        for x in ast.walk(fn):
+            if isinstance(x, ast.Name):
+                d = loads if isinstance(x.ctx, ast.Load) else stores
+                d[x.id] = d.get(x.id, 0) + 1
+            if isinstance(x, (ast.Global, ast.Nonlocal)):
+                for nm in x.names:
+                    stores[nm] = 99
+
+        def fold(body: List[ast.stmt]) -> List[ast.stmt]:
+            out: List[ast.stmt] = []
+            i = 0
+            while i < len(body):
+                st = body[i]
+                nxt = body[i + 1] if i + 1 < len(body) else None
+                if isinstance(st, ast.Assign) and len(st.targets) == 1 and isinstance(st.targets[0], ast.Name) and isinstance(st.value, ast.Call) \
+                        and isinstance(nxt, ast.For) and isinstance(nxt.iter, ast.Name) and nxt.iter.id == st.targets[0].id \
+                        and stores.get(nxt.iter.id, 0) == 1 and loads.get(nxt.iter.id, 0) == 1:
+                    nxt.iter = st.value
+                    i += 1
+                    continue
+                out.append(st)
+                i += 1
+            return out
+        for node in ast.walk(fn):
+            for fld in ("body", "orelse", "finalbody"):
+                b = getattr(node, fld, None)
+                if isinstance(b, list) and b and isinstance(b[0], ast.stmt):
+                    setattr(node, fld, fold(b))
+            if isinstance(node, ast.Try):
+                for h in node.handlers:
+                    h.body = fold(h.body)
     return ast.fix_missing_locations(tree)
 
 
